@@ -20,6 +20,11 @@ pub struct Base {
     pub parent: usize,
     pub block: usize,
     pub foreign: Transaction,
+    /// a valid sibling of the base block (same parent) and a valid child of the base block: the
+    /// sibling is the node's tip when a variant arrives as a side block; the child later makes the
+    /// variant's branch the longest
+    pub sibling: Option<usize>,
+    pub child: Option<usize>,
 }
 
 fn bases() -> Result<Vec<Base>, String> {
@@ -57,14 +62,16 @@ fn bases() -> Result<Vec<Base>, String> {
         let foreign = w.spend(&s2, &k3, &k2.public, 123, 0, ts + 9);
         let gt = if id % 2 == 0 { Some(key(0)) } else { None };
         let b = w.build(t, ts, gt, txs, name)?;
-        out.push(Base { name: name.to_string(), w, parent: t, block: b, foreign });
+        let sibling = w.honest_child(t, 6, &format!("{}-sibling", name)).ok();
+        let child = w.honest_child(b, 0, &format!("{}-child", name)).ok();
+        out.push(Base { name: name.to_string(), w, parent: t, block: b, foreign, sibling, child });
     }
     // (2) the genesis block itself (id 1, issuance transactions): only an empty node can be offered it
     {
         let w = World::standard(10);
         let k3 = key(3);
         let foreign = make_tx(&[], &[(k3.public, 0)], &k3, 1_000_001, b"foreign");
-        out.push(Base { name: "genesis".to_string(), w, parent: usize::MAX, block: 0, foreign });
+        out.push(Base { name: "genesis".to_string(), w, parent: usize::MAX, block: 0, foreign, sibling: None, child: None });
     }
     Ok(out)
 }
@@ -338,7 +345,7 @@ pub fn main(tier: Tier, _replay: Option<String>) -> i32 {
                 return None;
             };
             if blk.generate().is_err() {
-                return Some((blk.hash, false, false, vec![], true, "generate failed".to_string(), false));
+                return Some((blk.hash, false, false, vec![], true, "generate failed".to_string(), false, None));
             }
             let txlist: Vec<Vec<u8>> = blk.transactions.iter().map(|t| t.serialize_for_net()).collect();
             let sig_ok = verify_signature(&blk.pre_hash, &blk.signature, &blk.creator);
@@ -347,7 +354,7 @@ pub fn main(tier: Tier, _replay: Option<String>) -> i32 {
             } else {
                 match w.node_at(base.parent, key(9)) {
                     Ok(n) => n,
-                    Err(e) => return Some((blk.hash, false, false, txlist, sig_ok, format!("node: {}", e), false)),
+                    Err(e) => return Some((blk.hash, false, false, txlist, sig_ok, format!("node: {}", e), false, None)),
                 }
             };
             // gate b: verification thread filter with the original's advertised id/hash
@@ -373,13 +380,39 @@ pub fn main(tier: Tier, _replay: Option<String>) -> i32 {
                 o => (false, o.label()),
             };
             let note = if note_fresh.starts_with("panic") || note_fresh == "stalled" { format!("{} (as first block of an empty node)", note_fresh) } else { note };
-            Some((blk.hash, acc, filt, txlist, sig_ok, note, acc_fresh))
+            // gate d: the bytes arrive as a side block (a sibling is the tip), are written to disk
+            // unvalidated, the node restarts from its files, and a valid child then makes the
+            // variant's branch the longest: the variant is validated for the first time after
+            // having been read back by the start-up loader
+            if let (Some(sib), Some(ch), true) = (base.sibling, base.child, blk.hash == orig_hash) {
+                use crate::props::c12::{deliver, node_cfg, restart};
+                let io = crate::seams::MemIO::new();
+                let mut fnode = crate::fullnode::FullNode::new(key(9), node_cfg(w), io.clone(), crate::seams::ManualClock::new(5_000_000));
+                let _ = fnode.init();
+                let mut ok = true;
+                for i in w.path(base.parent).into_iter().chain([sib]) {
+                    ok &= deliver(&mut fnode, &w.blocks[i].bytes).is_done();
+                }
+                ok &= deliver(&mut fnode, &v.bytes).is_done();
+                if ok {
+                    if let Ok(mut r) = restart(w, fnode.io.files(), false) {
+                        let o = deliver(&mut r.n, &w.blocks[ch].bytes);
+                        if !o.is_done() {
+                            return Some((blk.hash, acc, filt, txlist, sig_ok, format!("{} (after restart, child delivered)", o.label()), acc_fresh, None));
+                        }
+                        let adopted = r.n.tip().1 == w.blocks[ch].hash;
+                        return Some((blk.hash, acc, filt, txlist, sig_ok, note, acc_fresh, Some(adopted)));
+                    }
+                }
+            }
+            Some((blk.hash, acc, filt, txlist, sig_ok, note, acc_fresh, None))
         });
         let mut groups: BTreeMap<Hash, Vec<(String, String, Vec<Vec<u8>>, bool)>> = BTreeMap::new();
         let mut groups_fresh: BTreeMap<Hash, Vec<(String, String, Vec<Vec<u8>>, bool)>> = BTreeMap::new();
+        let mut groups_restart: BTreeMap<Hash, Vec<(String, String, Vec<Vec<u8>>, bool)>> = BTreeMap::new();
         for (v, r) in vs.iter().zip(results.into_iter()) {
             rep.evaluations += 1;
-            let Some((hash, acc, filt, txlist, sig_ok, note, acc_fresh)) = r else {
+            let Some((hash, acc, filt, txlist, sig_ok, note, acc_fresh, after_restart)) = r else {
                 rep.outcome("undecodable");
                 continue;
             };
@@ -390,6 +423,17 @@ pub fn main(tier: Tier, _replay: Option<String>) -> i32 {
             }
             if v.class == "original" && !acc {
                 rep.machinery(format!("original block of {} not accepted: {}", base.name, note));
+            }
+            match after_restart {
+                Some(true) => {
+                    rep.outcome("restart-gate:variant-on-the-longest-chain");
+                    if !sig_ok {
+                        rep.violate(&format!("accepted-with-bad-creator-signature/{}/after-restart", v.class), format!("{} {}: stored as a side block, read back at start-up, then adopted when its child arrived", base.name, v.label), json!({"base": base.name, "variant": v.label, "bytes": hex::encode(&v.bytes)}));
+                    }
+                    groups_restart.entry(hash).or_default().push((v.label.clone(), v.class.clone(), txlist.clone(), filt));
+                }
+                Some(false) => rep.outcome("restart-gate:variant-branch-not-adopted"),
+                None => {}
             }
             if acc_fresh {
                 rep.outcome(if hash == orig_hash { "first-block-gate:accepted:same-hash" } else { "first-block-gate:accepted:different-hash" });
@@ -422,6 +466,23 @@ pub fn main(tier: Tier, _replay: Option<String>) -> i32 {
                     rep.violate(
                         &format!("same-hash-different-txs/{}", other.1),
                         format!("{}: variants '{}' and '{}' are both accepted under hash {} with different transaction lists (verify_block filter passed: {})", base.name, first.0, other.0, hx(h), other.3),
+                        json!({"base": base.name, "a": first.0, "b": other.0}),
+                    );
+                }
+            }
+        }
+        for (h, g) in groups_restart.iter() {
+            // the original is in the group (it is a variant too): everything adopted under its hash
+            // must carry its transaction list
+            let Some(first) = g.iter().find(|x| x.1 == "original") else {
+                rep.machinery(format!("{}: the original was not adopted through the restart gate", base.name));
+                continue;
+            };
+            for other in g.iter().filter(|x| x.1 != "original") {
+                if other.2 != first.2 {
+                    rep.violate(
+                        &format!("same-hash-different-txs/{}/after-restart", other.1),
+                        format!("{}: variant '{}' was stored as a side block, read back at start-up and adopted under hash {} with a transaction list that differs from the original's", base.name, other.0, hx(h)),
                         json!({"base": base.name, "a": first.0, "b": other.0}),
                     );
                 }
